@@ -63,6 +63,8 @@ func (this *NEOHandler) SyncGenesisHeader(native *native.NativeService) error {
 		}); err != nil {
 			return fmt.Errorf("NeoHandler SyncGenesisHeader, update ConsensusPeer error: %v", err)
 		}
+	} else {
+		return fmt.Errorf("NeoHandler SyncGenesisHeader, genesis header had been initialized")
 	}
 	return nil
 }
